@@ -87,6 +87,19 @@ CLAIMED["C06"] = dict(
           "signatures. Chain-side verification of update instructions is in the Haskell node and not bound."),
     ref="4 C06")
 
+CLAIMED["C05"] = dict(
+    engine="base",
+    technique="TLA+ wire grammar Wire.tla (canonical encodings with decoded-field expectations, near-miss classes) enumerated by TLC; vectors and their mutation closure decoded by the real Deserial impls, re-encoded, field-compared; hostile lengths decoded one per process under an address-space limit with a counting allocator",
+    text=("Wire.tla states the binary format of the specified composites independently of the Rust code (big-endian integers, length-prefixed sequences, maps/sets with strictly increasing "
+          "keys, feature bitmaps with defined bits only) and lists the near misses a canonical decoder must reject; TLC checks that near misses never coincide with canonical encodings and that "
+          "encodings determine the fields. Every canonical vector must decode, consume exactly its length, show the spec's field values in the decoded value, and re-encode byte-identically; "
+          "every near miss (unordered/duplicate keys, undefined bitmap bits and tags, counts/lengths beyond the content) must be rejected; every proper prefix must be rejected; trailing bytes must "
+          "stay unconsumed; whatever a bit flip is decoded to must re-encode to the consumed bytes (one accepted encoding per value); and no decode may allocate more than 1 MiB + 64 x input. Found and "
+          "fixed with this check: ConfigureBaker undefined bitmap bits (F4) and the ProtocolUpdate URL allocation (F5)."),
+    note=("Only the composites in Wire.tla have an independent byte-exact grammar (about 14 types / payload kinds); the other Serial types are not covered by this check. 'All byte strings' is the mutation closure "
+          "of the grammar, not an enumeration. Group elements inside credentials/proofs are out of scope here (C20)."),
+    ref="4 C05")
+
 NOT_YET = {
 }
 
